@@ -373,29 +373,33 @@ namespace
       }
     }
 
-    // The FacetFlipper pass of deduct_topology_from_top() is defective for tetrahedra (flipped boundary triangles keep a
-    // stale edge list); it is checked separately under one stable key, the pipeline uses the pass-free construction there.
-    static constexpr bool use_flipper = !(vm::ShapeInfo<Shape_>::simplex && dim == 3);
+    // All deduced inputs are built with the real ConformalMesh::deduct_topology_from_top() (incl. the FacetFlipper pass).
+    // That pass used to leave a stale edge list on flipped boundary triangles of tetrahedral meshes (fixed in 7c3c29626);
+    // tetrahedral inputs are therefore validated first and a relapse is reported under one stable key.
+    static constexpr bool use_flipper = true;
 
     static void run_spec(verif::Ctx& c, const vm::MeshSpec& ms, const Opts& o)
     {
+      if(vm::ShapeInfo<Shape_>::simplex && dim == 3 && !ms.explicit_faces && !check_flipper(c, ms)) return;
       std::unique_ptr<MeshType> mesh = vm::build_mesh<MeshType>(ms, use_flipper);
       run_node(c, NodeType::make_unique(std::move(mesh)), o);
     }
 
-    static void check_flipper(verif::Ctx& c, const vm::MeshSpec& ms)
+    static bool check_flipper(verif::Ctx& c, const vm::MeshSpec& ms)
     {
       std::unique_ptr<MeshType> mesh = vm::build_mesh<MeshType>(ms, true);
       vm::PMesh M; std::string err;
       vm::extract_mesh(M, *mesh, 0, &err);
       vm::Rep r; r.cap = 1000;
       vm::check_topology(M, r, "flipper");
+      const bool ok = r.ok();
       bool only21 = true;
       for(auto& x : r.f) if(x.first != "flipper.subentity<2,1>") only21 = false;
       if(!r.ok() && only21 && vm::ShapeInfo<Shape_>::simplex && dim == 3)
         c.fail("tetra deduct_topology_from_top: flipped boundary triangle keeps stale <2,1> (CongruencyMapping<Simplex<2>,1>::flip)", r.f[0].second);
       else flush(c, r, "deduct_topology_from_top:");
       c.count("flipper_checks");
+      return ok;
     }
 
     /// parses a mesh file; vertices are snapped to the lattice 2^-qbits
@@ -496,9 +500,6 @@ namespace
   {
     c.desc([&]{ return vm::spec_str(ms) + " depth=" + std::to_string(o.depth) + " parts-variant=" + std::to_string(o.part_variant) + " perm=" + std::to_string(o.perm_strategy); });
     Runner<Shape_>::run_spec(c, ms, o);
-    // tetrahedra: the pipeline builds its inputs without the FacetFlipper pass (see Runner::use_flipper); the real
-    // deduct_topology_from_top() result is validated here for every deduced tetrahedral input
-    if(!Runner<Shape_>::use_flipper && !ms.explicit_faces) Runner<Shape_>::check_flipper(c, ms);
     c.nontrivial(spec_hash(ms, o));
   }
 
